@@ -6,6 +6,7 @@ import (
 	"fmt"
 	"os"
 	"regexp"
+	"runtime/pprof"
 	"sort"
 	"strings"
 	"sync"
@@ -17,9 +18,16 @@ func main() {
 		fmt.Fprintln(os.Stderr, "usage: govc verify|dump|vc|list ...")
 		os.Exit(2)
 	}
+	if p := os.Getenv("GOVC_CPUPROFILE"); p != "" {
+		f, _ := os.Create(p)
+		pprof.StartCPUProfile(f)
+		defer pprof.StopCPUProfile()
+	}
 	switch os.Args[1] {
 	case "verify":
-		os.Exit(cmdVerify(os.Args[2:]))
+		rc := cmdVerify(os.Args[2:])
+		pprof.StopCPUProfile()
+		os.Exit(rc)
 	case "dump":
 		os.Exit(cmdDump(os.Args[2:]))
 	case "list":
